@@ -90,7 +90,7 @@ func TestC16L1(t *testing.T) {
 	runRapid(t, 500, 8000, func(rt *rapid.T) {
 		c := rec.Begin()
 		c.Class("L1")
-		w := newL1World(rt, l1Cfg{weights: c16Weights, maxBridges: 4, withFee: true, badCfgProb: 5, periods: []time.Duration{time.Second, time.Minute, time.Hour}})
+		w := newL1World(rt, l1Cfg{weights: c16Weights, maxBridges: 4, withFee: true, badCfgProb: 5, manyBridges: true, periods: []time.Duration{time.Second, time.Minute, time.Hour}})
 		w.opCreate(rt, true)
 		deleted, batchUpd, claims := 0, 0, 0
 		repeatSteps(rt, 40, func(i int) {
